@@ -931,9 +931,42 @@ func c06Math(c *Cfg, r *Rng, w *c06Worker, n int) {
 		}
 		return new(big.Int).Mul(z, c06Pow10(e)), true
 	}
-	for i := 0; i < n; i++ {
+	// operands at the machine-word boundaries first (results of the integer-valued builtins
+	// travel through *big.Int → decimal conversions with int64/uint64 fast paths): ±(2^k + d)
+	// as int, as integral float and with fractions .25/.5/.75 (seeded change C06-c)
+	var xs []c06Num
+	{
+		br := r.Sub()
+		for _, k := range []uint{7, 8, 15, 16, 31, 32, 53, 62, 63, 64, 65, 127, 128} {
+			for d := int64(-2); d <= 2; d++ {
+				z := new(big.Int).Add(new(big.Int).Lsh(big.NewInt(1), k), big.NewInt(d))
+				for _, neg := range []bool{false, true} {
+					zz := new(big.Int).Set(z)
+					if neg {
+						zz.Neg(zz)
+					}
+					xs = append(xs, c06Int(zz), c06Float(br, zz, 0))
+					for _, fr := range []int64{25, 50, 75} {
+						cf := new(big.Int).Add(new(big.Int).Mul(new(big.Int).Abs(zz), big.NewInt(100)), big.NewInt(fr))
+						if neg {
+							cf.Neg(cf)
+						}
+						xs = append(xs, c06Float(br, cf, -2))
+					}
+				}
+			}
+		}
+		c.Count(fmt.Sprintf("math:boundary-operands=%d", len(xs)))
+	}
+	nb := len(xs)
+	for i := 0; i < nb+n; i++ {
 		rr := r.Sub()
-		x := c06RandNum(rr, 50, 45)
+		var x c06Num
+		if i < nb {
+			x = xs[i]
+		} else {
+			x = c06RandNum(rr, 50, 45)
+		}
 		q := x.rat()
 		fl := c06Floor(q)
 		ce := new(big.Int).Neg(c06Floor(new(big.Rat).Neg(q)))
